@@ -114,6 +114,14 @@ func (g *DialerGroup) SetSelectionPolicy(policy DialerSelectionPolicy) {
 	case !currentNeedsAliveState && newNeedsAliveState:
 		next := g.buildSelectionState(policy, true)
 		g.registerAliveDialerSets(next.aliveDialerSets)
+		// The sets were filled from the dialers' state before the dialers knew
+		// them: a report that landed in between was delivered to nobody. Read
+		// every dialer once more now that reports reach the new sets.
+		for _, set := range uniqueAliveDialerSets(next.aliveDialerSets) {
+			for _, d := range g.Dialers {
+				set.NotifyDialerStateChange(d)
+			}
+		}
 		for _, d := range g.Dialers {
 			d.ActivateCheck()
 		}
